@@ -9,11 +9,12 @@ ROOT="$(cd "$(dirname "$0")/.." && pwd)"
 DIR="$(cd "$1" && pwd)"; shift
 PROPS="$*"
 export GOFLAGS=-mod=mod GOPROXY=off GOSUMDB=off GOTOOLCHAIN=local
-WT=/tmp/verif-seedtest/repo
-rm -rf /tmp/verif-seedtest; mkdir -p /tmp/verif-seedtest
+BASE=/tmp/verif-seedtest-$(basename "$DIR")
+WT=$BASE/repo
+rm -rf "$BASE"; mkdir -p "$BASE"
 git -C /repo worktree prune
 git -C /repo worktree add -q --detach "$WT" HEAD || exit 2
-cleanup() { git -C /repo worktree remove --force "$WT" 2>/dev/null; rm -rf /tmp/verif-seedtest; "$ROOT/check" build >/dev/null 2>&1; }
+cleanup() { git -C /repo worktree remove --force "$WT" 2>/dev/null; rm -rf "$BASE"; }
 trap cleanup EXIT
 mkdir -p "$WT/demo" && cp "$DIR/demo_test.go" "$WT/demo/demo_test.go"
 echo "== demo on the unchanged tree (must pass)"
@@ -31,4 +32,3 @@ for p in $PROPS; do
   echo "$out" | grep -a -A3 "^VIOLATION" | head -8 | cut -c1-400
   if [ $rc -eq 1 ]; then echo "RESULT $p FIRED"; else echo "RESULT $p MISSED (exit $rc)"; fi
 done
-find "$ROOT/replays" -name 'C*.json' -mmin -10 -delete 2>/dev/null
